@@ -7,7 +7,7 @@
    are NOT provable here (they need the root of x = 5(1 - exp(-x)) and zeta(4)); they are numeric
    tests, labelled as tests, in harness/props/c14.py:extra. *)
 From Coq Require Import Reals.
-From LV Require Import Lib.Base Model.UnitsBase Gen.UnitTable Model.Units Proofs.UnitsP Proofs.UnitsStateP.
+From LV Require Import Lib.Base Model.UnitsBase Gen.UnitTable Model.Units Proofs.UnitsP Proofs.UnitsStateP Proofs.UnitsVegaP.
 
 (* (a) all 64 ordered triples of wavelength units (finite, decided by computation in Q):
    A->B->C is A->C, A->A is 1, every round trip is 1, every factor is positive *)
@@ -198,6 +198,60 @@ Theorem C14_to_keeps_wellformed :
   /\ (toc RF H C Rleb s args = Ok s' -> wellformed s').
 Proof. intros H C args s s' W. exact (conj (toc_is_to H C args s W) (toc_keeps_wellformed H C args s s' W)). Qed.
 Print Assumptions C14_to_keeps_wellformed.
+
+(* ---- deepen: Blackbody.sample, Blackbody.vegamag, sample_vegamag ----
+   Blackbody.sample: sampling a Blackbody (built in any units (a, g)) in the wave unit b at its own wavelengths
+   expressed in b returns exactly the values the object has after to(b) - the sampled curve and the converted
+   object are the same curve, for all wavelength lists and temperatures *)
+Theorem C14_blackbody_sample_is_converted :
+  forall (H C : R), (H * C <> 0)%R -> forall (Kb : R) (expf : R -> R) (T : R) (a b : wunit) (g : funit)
+         (ws : list R) (s s' : spectrum RF),
+  Forall (fun w => w <> 0%R) ws ->
+  blackbody RF H C Kb expf ws T (wname a) (fname g) = Ok s ->
+  to RF H C s [wname b] = Ok s' ->
+  bb_sample RF H C Kb expf s T (s_wave RF s') (wname b) = Ok (s_value RF s').
+Proof. exact bb_sample_is_converted. Qed.
+Print Assumptions C14_blackbody_sample_is_converted.
+
+(* Blackbody.vegamag (E = E0 (M/M0) 10^(-0.4 mag), [vegamag] in Model/Units.v; (w0, jy) the band's table entry,
+   pw = 10^(-0.4 mag), np.exp abstract): a star built in the units (a, g) and converted with Spectrum.to to (b, h)
+   IS the star built directly in (b, h) at the converted wavelengths - for every unit pair, wavelength list,
+   temperature, magnitude and band (w0 <> 0, reference exitance <> 0).  The defect repaired by 5043f95 (zero point
+   and exitances taken in photlam whatever the value unit) contradicts exactly this statement. *)
+Theorem C14_vegamag_unit_independent :
+  forall (H C : R), (H * C <> 0)%R -> forall (Kb cpi : R) (expf : R -> R) (w0 jy pw T : R),
+  (w0 <> 0)%R -> (planck_si RF H C Kb expf (Q2R (2 # 1) * cpi) w0 T <> 0)%R ->
+  forall (a b : wunit) (g h : funit) (ws : list R) (s : spectrum RF),
+  Forall (fun w => w <> 0%R) ws ->
+  vegamag RF H C Kb cpi expf w0 jy pw T ws (wname a) (fname g) = Ok s ->
+  to RF H C s [wname b; fname h]
+  = vegamag RF H C Kb cpi expf w0 jy pw T (scale RF (wf RF a b) ws) (wname b) (fname h).
+Proof. exact vegamag_unit_independent. Qed.
+Print Assumptions C14_vegamag_unit_independent.
+
+(* star.sample (sample_vegamag): after any conversion to (b, h), sampling the star in b at its own wavelengths
+   returns its values - the zero point, the reference exitance and the exitances are all taken in the units of the
+   request (a zero point cached in the construction units, seeded change C14-4, contradicts this) *)
+Theorem C14_vegamag_sample_is_converted :
+  forall (H C : R), (H * C <> 0)%R -> forall (Kb cpi : R) (expf : R -> R) (w0 jy pw T : R),
+  (w0 <> 0)%R -> (planck_si RF H C Kb expf (Q2R (2 # 1) * cpi) w0 T <> 0)%R ->
+  forall (a b : wunit) (g h : funit) (ws : list R) (s s' : spectrum RF),
+  Forall (fun w => w <> 0%R) ws ->
+  vegamag RF H C Kb cpi expf w0 jy pw T ws (wname a) (fname g) = Ok s ->
+  to RF H C s [wname b; fname h] = Ok s' ->
+  star_sample RF H C Kb cpi expf s' w0 jy pw T (s_wave RF s') (wname b) = Ok (s_value RF s').
+Proof. exact star_sample_is_converted. Qed.
+Print Assumptions C14_vegamag_sample_is_converted.
+
+(* non-vacuity of the vegamag statements: a concrete star on exact rationals (H = C = K = 1, pi := 3, exp := 2,
+   band centre 2 m, 1e26 Jy, 10^(-0.4 mag) = 1/2) has the values E0 (M/M0) pw = [1/4; 1/64] at [2; 4] m (photon exitance ratio (1/32)(4/2)) *)
+Example C14_vegamag_nonvacuous :
+  match vegamag QcF (Q2Qc 1) (Q2Qc 1) (Q2Qc 1) (Q2Qc 3) (fun _ => Q2Qc 2) (Q2Qc 2)
+                (Q2Qc (100000000000000000000000000 # 1)) (Q2Qc (1 # 2)) (Q2Qc 1) [Q2Qc 2; Q2Qc 4] NM NPhotlam with
+  | Ok s => Some (map this (s_value QcF s), s_wu QcF s, s_vu QcF s)
+  | Err _ => None
+  end = Some ([1 # 4; 1 # 64], Wm, Some Fphotlam)%Q.
+Proof. vm_compute. reflexivity. Qed.
 
 (* non-vacuity: the constants of the source satisfy H*C <> 0, a concrete density spectrum in nm
    converts to um with wavelengths / 1000, values * 1000 and the same integral (= 30), and a
